@@ -18,7 +18,6 @@ def run(ctx):
     res.extra["announcement_derived_roster_checks"] = sum(r.get("derived_checks", 0) for r in results)
     res.floor("view_probes", probes, 300)
     res.floor("membership_changes", changes, 500)
-    common.run_big(ctx, res, ("C04",))
     # simultaneous renames of members of one channel to one nickname: afterwards NAMES lists everybody once under
     # the nickname it now has, and the observer heard one NICK announcement per accepted rename
     import multiprocessing
